@@ -15,6 +15,7 @@ import multiprocessing as mp
 import os
 import random
 import sys
+import tempfile
 import time
 import traceback
 
@@ -262,8 +263,12 @@ def main(mod_name, argv=None):
         'coverage': cov, 'assumptions': list(mod.ASSUMPTIONS), 'wall_s': round(wall_s, 2),
         'violations': len(violations),
     }
-    os.makedirs(EVIDENCE_DIR, exist_ok=True)
-    with open(os.path.join(EVIDENCE_DIR, f'{mod.ID}.json'), 'w') as f:
+    evdir = EVIDENCE_DIR
+    if os.environ.get('HID_REPO') or os.environ.get('VERIF_SELFTEST'):
+        # runs against a scratch copy (mutation testing) or self-tests never touch the evidence of record
+        evdir = os.path.join(tempfile.gettempdir(), 'hidsim-scratch-evidence')
+    os.makedirs(evdir, exist_ok=True)
+    with open(os.path.join(evdir, f'{mod.ID}.json'), 'w') as f:
         json.dump(evidence, f, indent=1, sort_keys=True, default=str)
 
     if args.digest:
